@@ -9,6 +9,7 @@ package main
 import (
 	"fmt"
 	"math/big"
+	"strings"
 )
 
 type hvKind int
@@ -235,6 +236,38 @@ type Heap struct {
 	mb    *Heap
 	meta  map[LeafKey]leafMeta
 	wm    *Term
+	// stable leaves (fields never reassigned after construction) resolve
+	// through stableFrom instead of this heap's epoch: a havoc keeps them
+	stableFrom *Heap
+}
+
+// stableDecl: declared stable fields: type key -> leaf path prefixes
+var stableDecl = map[string][]string{}
+
+func isStableKey(k LeafKey) bool {
+	// ghost lock state: every function leaves held() as it found it (default
+	// lock-pairing postcondition, checked as lock: obligations), so a havoc
+	// never changes it
+	if strings.HasSuffix(k.Path, "$held") {
+		return true
+	}
+	if k.Elem {
+		return false
+	}
+	for _, p := range stableDecl[k.Type] {
+		if k.Path == p || strings.HasPrefix(k.Path, p+".") {
+			return true
+		}
+	}
+	return false
+}
+
+// NewEpochHeapKeeping: a fresh epoch in which declared-stable leaves keep
+// their versions from old.
+func NewEpochHeapKeeping(hint string, wm *Term, old *Heap) *Heap {
+	h := NewEpochHeap(hint, wm)
+	h.stableFrom = old
+	return h
 }
 
 var epochBases = map[string]*HV{}
@@ -259,7 +292,9 @@ func (h *Heap) Get(k LeafKey, sort Sort, keySort Sort) *HV {
 		return v
 	}
 	var v *HV
-	if h.ma != nil {
+	if h.stableFrom != nil && isStableKey(k) {
+		v = h.stableFrom.Get(k, sort, keySort)
+	} else if h.ma != nil {
 		v = hvIteOf(h.mc, h.ma.Get(k, sort, keySort), h.mb.Get(k, sort, keySort))
 	} else {
 		bn := fmt.Sprintf("H.%s.%s", h.epoch, sanitize(k.String()))
@@ -276,7 +311,7 @@ func (h *Heap) Get(k LeafKey, sort Sort, keySort Sort) *HV {
 }
 
 func (h *Heap) With(k LeafKey, v *HV) *Heap {
-	n := &Heap{m: make(map[LeafKey]*HV, len(h.m)+1), epoch: h.epoch, mc: h.mc, ma: h.ma, mb: h.mb, wm: h.wm}
+	n := &Heap{m: make(map[LeafKey]*HV, len(h.m)+1), epoch: h.epoch, mc: h.mc, ma: h.ma, mb: h.mb, wm: h.wm, stableFrom: h.stableFrom}
 	for kk, vv := range h.m {
 		n.m[kk] = vv
 	}
